@@ -116,3 +116,14 @@ Theorem C15_ranges_channel : forall nf e o m c,
   (has (c_optmask c) B_TRIES = false -> (c_tries c < 2 ^ 32)%Z).
 Proof. exact Chan_ranges.init_options_ranges. Qed.
 Print Assumptions C15_ranges_channel.
+
+(* the same at the level of the file text (what the metamorphic oracle compares): inserting a raw
+   junk line - blank, or junk after trimming - anywhere in a resolv.conf does not change the
+   system configuration read from it (same classes as C15_junk_independent_partial) *)
+Theorem C15_junk_independent_file_partial : forall nf ifs cfg rs1 j rs2 cls,
+  Forall no_nl rs1 -> no_nl j -> Forall no_nl rs2 ->
+  junk_class_raw j = Some cls -> proved_class cls = true ->
+  process_buf (parse_resolv_line nf ifs) cfg (unlines (rs1 ++ j :: rs2)) =
+  process_buf (parse_resolv_line nf ifs) cfg (unlines (rs1 ++ rs2)).
+Proof. exact junk_file_independent. Qed.
+Print Assumptions C15_junk_independent_file_partial.
